@@ -29,12 +29,25 @@ def main():
 	demo = seed / 'demo.py'
 	meta = json.loads((seed / 'meta.json').read_text()) if (seed / 'meta.json').exists() else {}
 	out = {'property': pid, 'seed': str(seed), 'summary': meta.get('summary'), 'needs': meta.get('needs')}
+	prev = None
+	dest0 = VERIF / 'seeded' / name / 'meta.json'
+	if '--checks-only' in sys.argv and dest0.exists():
+		prev = json.loads(dest0.read_text())
+		out = prev['what_i_ran']
+		out.setdefault('history', []).append({'checks': out.get('checks'), 'caught_by': out.get('caught_by')})
 	# ---- confirm in a scratch worktree -------------------------------------------------------------
 	wt = Path(f'/tmp/confirm_{name}')
+	if prev is not None:
+		return finish(seed, pid, name, patch, demo, meta, out, run_all)
+	return confirm_and_finish(seed, pid, name, patch, demo, meta, out, run_all, wt)
+
+
+def confirm_and_finish(seed, pid, name, patch, demo, meta, out, run_all, wt):
 	sh(f'git -C /repo worktree remove --force {wt}')
 	r = sh(f'git -C /repo worktree add -q {wt} HEAD')
 	try:
 		sh(f'cp /repo/src/gambit/_cython/*.so {wt}/src/gambit/_cython/')
+		sh(f'rsync -a /repo/tests/data/ {wt}/tests/data/')   # incl. the .gz twins the test-suite generates on first run (untracked)
 		env = dict(os.environ, PYTHONPATH=f'{wt}/src')
 		r0 = subprocess.run([PY, str(demo)], capture_output=True, text=True, env=env, cwd=seed, timeout=600)
 		out['demo_unpatched_exit'] = r0.returncode
@@ -55,7 +68,14 @@ def main():
 		sh(f'git -C /repo worktree remove --force {wt}')
 	out['confirmed'] = bool(out.get('patch_applies') and out.get('demo_unpatched_exit') == 0 and out.get('demo_patched_exit', 0) != 0
 	                        and ('542 passed' in out.get('suite', '542 passed')))
+	return finish(seed, pid, name, patch, demo, meta, out, run_all)
+
+
+def finish(seed, pid, name, patch, demo, meta, out, run_all):
 	# ---- run the checks against /repo with the patch applied -----------------------------------------
+	import fcntl
+	lock = open('/tmp/eval_seed.lock', 'w')
+	fcntl.flock(lock, fcntl.LOCK_EX)
 	if out['confirmed'] or '--force' in sys.argv:
 		if sh('git -C /repo diff --quiet').returncode != 0:
 			print('/repo dirty; abort'); return 3
